@@ -28,6 +28,7 @@ type vfOp struct {
 	Name   string   `json:"name,omitempty"`  // attribute name
 	Value  string   `json:"value,omitempty"` // attribute value kind (vfAttrValues)
 	Pat    int      `json:"pat,omitempty"`   // data pattern
+	Bad    string   `json:"bad,omitempty"`   // for Op "bad": which call designed to fail (vfBadCalls)
 }
 
 func (o vfOp) String() string {
@@ -51,6 +52,8 @@ func (o vfOp) String() string {
 		return fmt.Sprintf("resize(%s,%v)", o.Path, o.Dims)
 	case "hardlink", "softlink", "extlink":
 		return fmt.Sprintf("%s(%s->%s)", o.Op, o.Path, o.Target)
+	case "bad":
+		return fmt.Sprintf("bad:%s(%s)", o.Bad, o.Path)
 	default:
 		return fmt.Sprintf("%s(%s)", o.Op, o.Path)
 	}
@@ -324,8 +327,190 @@ func (w *vfWorld) Apply(o vfOp) (err error, panicked bool) {
 		return w.FW.CreateExternalLink(o.Path, "other.h5", o.Target), false
 	case "densegroup":
 		return w.FW.CreateDenseGroup(o.Path, map[string]string{"x": o.Target}), false
+	case "bad":
+		return vfApplyBad(w, o), false
 	case "close":
 		return w.Close(), false
 	}
 	return fmt.Errorf("harness: unknown op %q", o.Op), false
+}
+
+// vfBadCalls is the catalogue of calls chosen to fail at a validation or capacity point.
+// Path names the object the call is aimed at where one is needed.
+var vfBadCalls = []string{
+	"mkds-empty-name", "mkds-relative-name", "mkds-zero-dim", "mkds-no-dims", "mkds-chunk-rank-mismatch", "mkds-chunk-zero",
+	"mkds-maxdims-below-dims", "mkds-maxdims-without-chunks", "mkds-maxdims-rank-mismatch", "mkds-string-without-size",
+	"mkds-array-without-dims", "mkds-enum-mismatch", "mkds-opaque-without-tag", "mkds-unknown-type", "mkds-duplicate", "mkds-missing-parent",
+	"mkgroup-empty", "mkgroup-relative", "mkgroup-root", "mkgroup-duplicate", "mkgroup-missing-parent", "mkgroup-over-dataset-name",
+	"attr-nil", "attr-unsupported-type", "attr-empty-slice", "attr-2d-slice", "attr-on-group-unsupported",
+	"delattr-absent", "write-wrong-length", "write-wrong-type", "writeraw-wrong-size", "write-nil",
+	"resize-not-resizable", "resize-beyond-max", "resize-rank-mismatch", "resize-zero",
+	"hardlink-missing-target", "hardlink-duplicate-name", "hardlink-missing-parent", "hardlink-relative", "hardlink-to-root-path",
+	"softlink-relative-target", "softlink-duplicate-name", "extlink-empty-file", "extlink-duplicate-name",
+	"densegroup-missing-target", "densegroup-duplicate-name", "compound-nil-type", "opendataset-in-create-session",
+}
+
+func vfApplyBad(w *vfWorld, o vfOp) error {
+	fw := w.FW
+	x := w.DS[o.Path] // may be nil
+	one := []uint64{2}
+	switch o.Bad {
+	case "mkds-empty-name":
+		_, e := fw.CreateDataset("", Int32, one)
+		return e
+	case "mkds-relative-name":
+		_, e := fw.CreateDataset("rel", Int32, one)
+		return e
+	case "mkds-zero-dim":
+		_, e := fw.CreateDataset("/bad", Int32, []uint64{2, 0})
+		return e
+	case "mkds-no-dims":
+		_, e := fw.CreateDataset("/bad", Int32, nil)
+		return e
+	case "mkds-chunk-rank-mismatch":
+		_, e := fw.CreateDataset("/bad", Int32, []uint64{4}, WithChunkDims([]uint64{2, 2}))
+		return e
+	case "mkds-chunk-zero":
+		_, e := fw.CreateDataset("/bad", Int32, []uint64{4}, WithChunkDims([]uint64{0}))
+		return e
+	case "mkds-maxdims-below-dims":
+		_, e := fw.CreateDataset("/bad", Int32, []uint64{4}, WithChunkDims([]uint64{2}), WithMaxDims([]uint64{3}))
+		return e
+	case "mkds-maxdims-without-chunks":
+		_, e := fw.CreateDataset("/bad", Int32, []uint64{4}, WithMaxDims([]uint64{8}))
+		return e
+	case "mkds-maxdims-rank-mismatch":
+		_, e := fw.CreateDataset("/bad", Int32, []uint64{4}, WithChunkDims([]uint64{2}), WithMaxDims([]uint64{8, 8}))
+		return e
+	case "mkds-string-without-size":
+		_, e := fw.CreateDataset("/bad", String, one)
+		return e
+	case "mkds-array-without-dims":
+		_, e := fw.CreateDataset("/bad", ArrayInt32, one)
+		return e
+	case "mkds-enum-mismatch":
+		_, e := fw.CreateDataset("/bad", EnumInt8, one, WithEnumValues([]string{"A", "B"}, []int64{1}))
+		return e
+	case "mkds-opaque-without-tag":
+		_, e := fw.CreateDataset("/bad", Opaque, one)
+		return e
+	case "mkds-unknown-type":
+		_, e := fw.CreateDataset("/bad", Datatype(9999), one)
+		return e
+	case "mkds-duplicate":
+		_, e := fw.CreateDataset(o.Path, Int32, one)
+		return e
+	case "mkds-missing-parent":
+		_, e := fw.CreateDataset("/nope/x", Int32, one)
+		return e
+	case "mkgroup-empty":
+		_, e := fw.CreateGroup("")
+		return e
+	case "mkgroup-relative":
+		_, e := fw.CreateGroup("rel")
+		return e
+	case "mkgroup-root":
+		_, e := fw.CreateGroup("/")
+		return e
+	case "mkgroup-duplicate", "mkgroup-over-dataset-name":
+		_, e := fw.CreateGroup(o.Path)
+		return e
+	case "mkgroup-missing-parent":
+		_, e := fw.CreateGroup("/nope/g")
+		return e
+	case "attr-nil":
+		return vfAttrOn(w, o.Path, "badattr", nil)
+	case "attr-unsupported-type":
+		return vfAttrOn(w, o.Path, "badattr", map[string]int{"a": 1})
+	case "attr-empty-slice":
+		return vfAttrOn(w, o.Path, "badattr", []int32{})
+	case "attr-2d-slice":
+		return vfAttrOn(w, o.Path, "badattr", [][]int32{{1}, {2}})
+	case "attr-on-group-unsupported":
+		return vfAttrOn(w, o.Path, "badattr", struct{ A int }{1})
+	case "delattr-absent":
+		if x == nil {
+			return fmt.Errorf("harness: no dataset")
+		}
+		return x.DeleteAttribute("no-such-attribute")
+	case "write-wrong-length":
+		if x == nil {
+			return fmt.Errorf("harness: no dataset")
+		}
+		t := vfTypes[w.DSType[o.Path]]
+		return x.Write(t.Make(vfProd(w.DSDims[o.Path])+1, 7))
+	case "write-wrong-type":
+		if x == nil {
+			return fmt.Errorf("harness: no dataset")
+		}
+		return x.Write([]string{"not", "numbers"})
+	case "writeraw-wrong-size":
+		if x == nil {
+			return fmt.Errorf("harness: no dataset")
+		}
+		return x.WriteRaw([]byte{1, 2, 3})
+	case "write-nil":
+		if x == nil {
+			return fmt.Errorf("harness: no dataset")
+		}
+		return x.Write(nil)
+	case "resize-not-resizable", "resize-beyond-max":
+		if x == nil {
+			return fmt.Errorf("harness: no dataset")
+		}
+		d := append([]uint64{}, w.DSDims[o.Path]...)
+		d[0] = 1000
+		return x.Resize(d)
+	case "resize-rank-mismatch":
+		if x == nil {
+			return fmt.Errorf("harness: no dataset")
+		}
+		return x.Resize(append(append([]uint64{}, w.DSDims[o.Path]...), 2))
+	case "resize-zero":
+		if x == nil {
+			return fmt.Errorf("harness: no dataset")
+		}
+		d := append([]uint64{}, w.DSDims[o.Path]...)
+		d[0] = 0
+		return x.Resize(d)
+	case "hardlink-missing-target":
+		return fw.CreateHardLink("/badlink", "/no/such/target")
+	case "hardlink-duplicate-name":
+		return fw.CreateHardLink(o.Path, o.Path)
+	case "hardlink-missing-parent":
+		return fw.CreateHardLink("/nope/l", o.Path)
+	case "hardlink-relative":
+		return fw.CreateHardLink("rel", o.Path)
+	case "hardlink-to-root-path":
+		return fw.CreateHardLink("/", o.Path)
+	case "softlink-relative-target":
+		return fw.CreateSoftLink("/badsoft", "relative/target")
+	case "softlink-duplicate-name":
+		return fw.CreateSoftLink(o.Path, "/somewhere")
+	case "extlink-empty-file":
+		return fw.CreateExternalLink("/badext", "", "/obj")
+	case "extlink-duplicate-name":
+		return fw.CreateExternalLink(o.Path, "other.h5", "/obj")
+	case "densegroup-missing-target":
+		return fw.CreateDenseGroup("/baddense", map[string]string{"x": "/no/such"})
+	case "densegroup-duplicate-name":
+		return fw.CreateDenseGroup(o.Path, map[string]string{})
+	case "compound-nil-type":
+		_, e := fw.CreateCompoundDataset("/badc", nil, one)
+		return e
+	case "opendataset-in-create-session":
+		_, e := fw.OpenDataset("/no-such-dataset")
+		return e
+	}
+	return fmt.Errorf("harness: unknown bad call %q", o.Bad)
+}
+
+func vfAttrOn(w *vfWorld, path, name string, v interface{}) error {
+	if ds := w.DS[path]; ds != nil {
+		return ds.WriteAttribute(name, v)
+	}
+	if g := w.GR[path]; g != nil {
+		return g.WriteAttribute(name, v)
+	}
+	return fmt.Errorf("harness: no handle %q", path)
 }
